@@ -64,27 +64,41 @@ def run(ck):
 
     writers = {"putOnWire": lib.single(prog, RW + "putOnWire"), "serveFile": lib.single(prog, H + "serveFile")}
     comps = {}
-    for name, f in writers.items():
-        dom = cfg.dominators(f)
-        evs = [(e, comp_of(e)) for e in f.events("call")]
-        evs = [(e, c) for e, c in evs if c]
+    SER = set(HELPERS.values())
+
+    def w_expand(g_):
+        # file-local pieces the serialiser was split into (not the three component writers themselves, not the transport)
+        return (g_.is_lambda or (g_.file.endswith("/common/http.cc") and not g_.cls)) and g_.name not in SER and strip_tmpl(g_.name) != H + "writeHeader"
+    for name, f0 in writers.items():
+        reg = [g_ for g_ in lib.region(prog, f0, within=w_expand) if any(comp_of(x) for x in g_.events("call"))]
+        flat = [(e, comp_of(e)) for e, _a in lib.flat_calls(prog, f0, w_expand) if comp_of(e)]
         by = {}
-        for e, c in evs:
+        for e, c in flat:
             by.setdefault(c, []).append(e)
         comps[name] = set(by) - {"asyncWrite", "body", "header"}
         ck.require("status" in by and "crlf" in by and "asyncWrite" in by, "%s: status line / blank line / asyncWrite not recognised (%s)" % (name, sorted(by)))
+        pos = {id(e): i for i, (e, _c) in enumerate(flat)}
         st = by["status"][0]
-        blank = by["crlf"][-1] if name == "putOnWire" else by["crlf"][-1]
-        # pick the blank line: the crlf write that is not inside a helper: the last `os << crlf` before asyncWrite
         aw = by["asyncWrite"][0]
+        # the blank line: the last `os << crlf` before the first asyncWrite
+        blanks = [e for e in by["crlf"] if pos[id(e)] < pos[id(aw)]]
+        ck.require(blanks, "%s: no blank line before asyncWrite" % name)
+        blank = blanks[-1]
         pre = ["headers", "cookies", "content-length"]
-        okorder = all(all(cfg.ev_dominates(dom, st, e) for e in by.get(k, [])) for k in pre + ["crlf"])
-        okorder = okorder and all(all(cfg.ev_dominates(dom, e, blank) for e in by.get(k, [])) for k in pre if k in by)
-        okorder = okorder and cfg.ev_dominates(dom, blank, aw) and all(cfg.ev_dominates(dom, blank, e) for e in by.get("body", []))
-        ck.ob("C05-R1", "%s/component-order" % name, okorder, f.loc, f, "status < {%s} < blank line < body < asyncWrite" % ", ".join(k for k in pre if k in by))
+        before = lambda x, y: pos[id(x)] < pos[id(y)]
+        okorder = all(before(st, e) for k in pre + ["crlf"] for e in by.get(k, []))
+        okorder = okorder and all(before(e, blank) for k in pre for e in by.get(k, []))
+        okorder = okorder and before(blank, aw) and all(before(blank, e) for e in by.get("body", []))
+        # where everything is written in one function the order is also a dominance fact
+        if len(reg) == 1 and reg[0] is f0:
+            dom = cfg.dominators(f0)
+            okorder = okorder and all(cfg.ev_dominates(dom, st, e) for k in pre + ["crlf"] for e in by.get(k, [])) and cfg.ev_dominates(dom, blank, aw)
+        ck.ob("C05-R1", "%s/component-order" % name, okorder, f0.loc, f0, "status < {%s} < blank line < body < asyncWrite" % ", ".join(k for k in pre if k in by))
         # failure discipline: each write W is followed by the `!os` test
         nw = 0
-        for e, c in evs:
+        for f in reg:
+          for e in [x for x in f.events("call") if comp_of(x)]:
+            c = comp_of(e)
             if c in ("asyncWrite",):
                 continue
             nw += 1
@@ -98,7 +112,7 @@ def run(ck):
                 cur = f.blocks[nx[0]]
                 hops += 1
             t = cur.term or {}
-            streams = {d_["var"] for d_ in f.events("decl") if "ostream" in (d_.get("type") or "")}
+            streams = {d_["var"] for d_ in f.events("decl") if "ostream" in (d_.get("type") or "")} | {p_["name"] for p_ in f.params if "ostream" in p_["type"]}
             tested = t.get("k") == "if" and t.get("neg") and ((t.get("core") or {}).get("v") in streams or (t.get("core") or {}).get("root") in streams)
             # nothing else is written between W and the test
             between = [x for x in blk.elems[e.idx + 1:] if comp_of(x) and x is not e] if cur is blk else []
@@ -106,10 +120,28 @@ def run(ck):
             detail = "followed by `if (!os)`"
             if okf:
                 fail = cur.succs[0]
-                fe = cfg.events_from_block(f, fail, stop=lambda x: x["k"] == "return")
-                # every way out of the failing arm has produced a rejected promise (directly or through a local helper that always does)
-                rej = not [x for x in cfg.exits_without(f, must_reject, start_block=fail) if x.kind != "throw"]
-                reach_aw = any(comp_of(x) == "asyncWrite" for x in cfg.events_from_block(f, fail))
+                if f is f0 or "Promise" in (f.d.get("ret") or ""):
+                    # every way out of the failing arm has produced a rejected promise (directly or through a local helper that always does)
+                    rej = not [x for x in cfg.exits_without(f, must_reject, start_block=fail) if x.kind != "throw"]
+                    reach_aw = any(comp_of(x) == "asyncWrite" for x in cfg.events_from_block(f, fail))
+                else:
+                    # a bool piece of the serialiser: the failing arm returns false, and whoever calls it turns false into a rejected
+                    # promise without sending anything
+                    ret_false = not [x for x in cfg.exits_without(f, lambda x: x["k"] == "return" and x.get("const") is False, start_block=fail) if x.kind != "throw"]
+                    sites = [s_ for g_ in reg + [f0] for s_ in g_.calls(lambda s_: any(h_.id == f.id for h_ in prog.resolve_call(s_)))]
+                    rej, reach_aw = ret_false and bool(sites), False
+                    for s_ in sites:
+                        cf = s_.func
+                        fe_ = lib.result_edges(cf, f.base, False)
+                        if not fe_:
+                            rej = False
+                        for bid, k_ in fe_:
+                            arm_ = cf.blocks[bid].succs[k_]
+                            if [x for x in cfg.exits_without(cf, must_reject, start_block=arm_) if x.kind != "throw"]:
+                                rej = False
+                            if any(comp_of(x) == "asyncWrite" or (x["k"] == "call" and summ.may(prog.resolve_call(x)[0], lambda y: comp_of(y) == "asyncWrite", "asyncWrite") if x["k"] == "call" and prog.resolve_call(x) and prog.resolve_call(x)[0].blocks else False)
+                                   for x in cfg.events_from_block(cf, arm_)):
+                                reach_aw = True
                 okf = rej and not reach_aw
                 detail = "failing arm returns Promise::rejected=%s, reaches asyncWrite=%s" % (rej, reach_aw)
             else:
@@ -137,9 +169,19 @@ def run(ck):
     ok = len(bufd) == 1 and len(sb) == 1 and sb[0].get("op") == "+=" and (bufd[0]["var"] + ".size()") in (sb[0]["rhs"].get("t") or "") and aw and aw[0]["args"][1].get("v") == bufd[0]["var"]
     ck.ob("C05-R2", "putOnWire/sent_bytes==buffer-sent", ok, sb[0].loc if sb else f.loc, f, "sent_bytes_ += buffer.size(); asyncWrite(fd, buffer)")
     g = writers["serveFile"]
-    cl = [e for e in g.events("call") if comp_of(e) == "content-length"]
-    ld = [d for d in g.events("decl") if cl and d.get("var") == cl[0]["args"][-1].get("v")]
-    ok = len(cl) == 1 and len(ld) == 1 and "st_size" in ((ld[0].get("init") or {}).get("t") or "")
+    # the operand of the Content-Length writer, traced back into serveFile through the pieces it was split into
+    clf = [(e, a_) for e, a_ in lib.flat_calls(prog, g, w_expand) if comp_of(e) == "content-length"]
+    cl = [e for e, _a in clf]
+    lenv = (clf[0][1][-1].get("v") or (clf[0][1][-1].get("t") or "").strip()) if clf else None
+    ld = [d for d in g.events("decl") if lenv and d.get("var") == lenv]
+
+    def is_file_size(d_):
+        if "st_size" in ((d_.get("init") or {}).get("t") or ""):
+            return True
+        # or a helper every return of which is the st_size of an fstat() result
+        hs_ = [h_ for h_ in prog.by_base.get(strip_tmpl(d_.get("icall") or ""), []) if h_.blocks]
+        return bool(hs_) and all([r_ for r_ in h_.events("return")] and all("st_size" in (r_.get("t") or "") for r_ in h_.events("return")) for h_ in hs_)
+    ok = len(cl) == 1 and len(ld) == 1 and is_file_size(ld[0])
     ck.ob("C05-R2", "serveFile/content-length==file-size", ok, cl[0].loc if cl else g.loc, g, "Content-Length is the fstat() size of the file that is sent")
     wr = lib.single(prog, H + "Experimental::(anonymous namespace)::writeRequest")
     cl = [e for e in wr.calls(lambda e: strip_tmpl(e.get("callee") or "").endswith("::writeHeader") and "ContentLength" in (e.get("t") or ""))]
